@@ -359,6 +359,7 @@ def error_cases(tmp):
     yaml_list = w("list.yaml", "- B101\n- B102\n")
     yaml_str = w("str.yaml", "just a string\n")
     cfg_ok = w("ok.yaml", "skips: [B404]\n")
+    clean = w("clean.py", "x = 1\n")
     cfg_prof = w("prof.yaml", "profiles:\n  mine:\n    include: [B101]\n")
     base_ok = w("base.json", json.dumps({"results": []}))
     os.makedirs(os.path.join(tmp, "cfgdir"))
@@ -389,6 +390,12 @@ def error_cases(tmp):
     add("msg-template-without-custom", ["--msg-template", "{line}", "-f", "txt", good], {"msg_template": "ok", "format": "txt"}, {}, "usage")
     add("msg-template-with-json", ["--msg-template", "{line}", "-f", "json", good], {"msg_template": "ok", "format": "json"}, {}, "usage")
     add("template-malformed", ["-f", "custom", "--msg-template", "{line", good], {"msg_template": "malformed", "format": "custom"}, {}, "template")
+    # brace-balanced templates that cannot be rendered (bad format spec / conversion): diagnosed up front, with and without findings to render
+    # (seeded change C03-m2: the dry-run validation was dropped, leaving a traceback + exit 1, or a silent exit 0 on a clean file)
+    for i, t in enumerate(["{relpath}:{line:zz}: {msg}", "{msg:d}", "{severity!x} {line}", "{line:>>>}", "{test_id:5.2f}"]):
+        add("template-unrenderable-%d-nofindings" % i, ["-f", "custom", "--msg-template", t, clean], {"msg_template": "malformed", "format": "custom"}, {}, "template")
+        add("template-unrenderable-%d-findings" % i, ["-f", "custom", "--msg-template", t, good], {"msg_template": "malformed", "format": "custom"}, {}, "template")
+        add("template-unrenderable-%d-exit-zero" % i, ["-f", "custom", "--exit-zero", "--msg-template", t, good], {"msg_template": "malformed", "format": "custom", "exit_zero": True}, {}, "template")
     add("template-no-tags", ["-f", "custom", "--msg-template", "no tags here", good], {"msg_template": "notags", "format": "custom"}, {}, "template")
     add("both-severity-spellings", ["-l", "--severity-level", "low", good], {"sev_flags": 1, "sev_name": "low"}, {}, "usage")
     add("both-confidence-spellings", ["-ii", "--confidence-level", "high", good], {"conf_flags": 2, "conf_name": "high"}, {}, "usage")
